@@ -99,7 +99,7 @@ ATOMS = {
     "C": 4, "N": 3, "O": 2, "S": 2, "P": 3, "B": 3, "F": 1, "Cl": 1, "Br": 1, "I": 1,
     "[Si]": 4, "[N+]": 4, "[O-]": 1, "[13CH2]": 2, "[SiH]": 3, "[NH+]": 3, "[CH]": 3, "[Ge]": 4,
     "c": 3, "n": 2, "s": 2, "o": 2,
-    "[H]": 1,
+    "[H]": 1, "[2H]": 1,
 }
 AROMATIC = {"c", "n", "s", "o"}
 # aromatic ring motifs: sequence of ring atoms (closure between first and last)
